@@ -153,7 +153,14 @@ def turbofish_args(path):
     return res
 
 
+_MODPATH = re.compile(r'\b(?:[a-z_][a-z_0-9]*::)+(?=[A-Z])')
+
+
 def canon_callee(callee):
+    return _MODPATH.sub('', _canon_callee(callee))
+
+
+def _canon_callee(callee):
     """callee text with generic arguments removed, except the trait's own arguments in
     `<Self as Trait<Args>>::method` heads (those select the impl)."""
     c = callee.strip()
